@@ -4,6 +4,31 @@ use crate::moves::Move;
 use crate::ops::ImplState;
 use crate::text::*;
 
+/// a table holding more than a million records: deepest-wins must keep working for keys already present AND for new keys
+/// (capacity limits, "table full" guards and eviction schemes only show at this size)
+pub fn run_big(rng: &mut Rng, n: usize, out: &mut Out) {
+    let mut st = ImplState::new();
+    out.op("tt.new", &st.apply("tt.new"));
+    let k0 = 1_000_000_000u64 + rng.below(1 << 40);
+    let count = n as u64;
+    out.run(&mut st, &format!("tt.fill {} {} 3", k0, count));
+    out.add("records_in_big_table", count);
+    let mut trace = String::new();
+    for i in 0..60u64 {
+        // keys inside the filled range, at its ends, and new ones
+        let k = match i % 4 { 0 => k0 + rng.below(count), 1 => k0 + count - 1 - rng.below(50.min(count)), 2 => k0 + rng.below(50.min(count)), _ => rng.next() };
+        out.run(&mut st, &format!("tt.get {}", k));
+        let depth = *rng.pick(&[0u8, 2, 3, 3, 4, 7]);
+        let op = format!("tt.store {} {} - {} {}", k, rng.range(-30000, 30000), depth, bounds_name(*rng.pick(&BOUNDS)));
+        out.run(&mut st, &op);
+        trace += &op; trace.push(';');
+        out.run(&mut st, &format!("tt.get {}", k));
+        out.count(match depth { 0 | 2 => "big_table_shallower_store", 3 => "big_table_equal_depth_store", _ => "big_table_deeper_store" });
+    }
+    out.nontrivial(&trace);
+    out.sample(trace.chars().take(200).collect());
+}
+
 pub fn run(rng: &mut Rng, n: usize, out: &mut Out) {
     let mut st = ImplState::new();
     for case in 0..n {
